@@ -303,6 +303,9 @@ func (d *pdrv) do(op map[string]any) bool {
 				e["alt"] = alt
 			}
 		}
+		if boolean(op["cw"]) && err == nil && n > 0 {
+			e["cw"] = d.longerMatches(n, blk)
+		}
 		if err == nil && n > 0 {
 			d.w += int64(n)
 		}
@@ -564,6 +567,66 @@ func (d *pdrv) greedyWitness(n int) map[string]any {
 		lits = []int{}
 	}
 	return map[string]any{"seqs": seqs, "lits": lits}
+}
+
+// longerMatches proposes counter-witnesses for the greedy-longest rule (C12)
+// on buffers that are too long for TLC's brute-force oracle: for every match
+// the block emits, an earlier source with a longer common prefix (clipped at
+// the end of the n bytes the parser looked at), and for every literal
+// position a source with at least MinMatchLen bytes. Each entry is
+// [position, source, length] in absolute stream offsets. They are proposals:
+// TLC validates every one (bytes equal, inside the retained buffer) before it
+// counts it against the parser.
+func (d *pdrv) longerMatches(n int, blk *lz.Block) [][]int64 {
+	out := [][]int64{}
+	f := cfgFields(d.p.ParserConfig())
+	mm := int(fieldInt(f, "MinMatchLen"))
+	buf := make([]byte, d.acc-d.disc)
+	if k, _ := d.p.ReadAt(buf, d.disc); k != len(buf) {
+		return out
+	}
+	w0 := int(d.w - d.disc)
+	// the parser scanned min(BlockSize, unparsed) bytes, possibly more than n
+	scan := d.p.BufferConfig().BlockSize
+	if scan > len(buf)-w0 {
+		scan = len(buf) - w0
+	}
+	end := w0 + scan
+	best := func(s int) (int, int) {
+		bl, bj := 0, -1
+		for j := 0; j < s; j++ {
+			l := 0
+			for s+l < end && buf[j+l] == buf[s+l] {
+				l++
+			}
+			if l > bl {
+				bl, bj = l, j
+			}
+		}
+		return bl, bj
+	}
+	pos := w0
+	for _, q := range blk.Sequences {
+		for k := 0; k < int(q.LitLen); k++ {
+			if l, j := best(pos + k); l >= mm && mm >= 2 {
+				out = append(out, []int64{int64(pos+k) + d.disc, int64(j) + d.disc, int64(l)})
+			}
+		}
+		pos += int(q.LitLen)
+		if l, j := best(pos); l > int(q.MatchLen) {
+			out = append(out, []int64{int64(pos) + d.disc, int64(j) + d.disc, int64(l)})
+		}
+		pos += int(q.MatchLen)
+		if len(out) > 8 {
+			return out
+		}
+	}
+	for ; pos < w0+n && len(out) <= 8; pos++ {
+		if l, j := best(pos); l >= mm && mm >= 2 {
+			out = append(out, []int64{int64(pos) + d.disc, int64(j) + d.disc, int64(l)})
+		}
+	}
+	return out
 }
 
 // lcg is a small deterministic PRNG for in-driver decisions.
